@@ -10,7 +10,7 @@
    Satisfiability examples: Proofs4.ex_* (the witnesses of the three repaired defects and the odd-length
    int4-in-int32_data case). *)
 From Coq Require Import NArith ZArith List Bool.
-From IRV Require Import Base.Exn Gen.C04Gen C04.Model C04.Proofs1 C04.Proofs2 C04.Proofs3 C04.Proofs4.
+From IRV Require Import Base.Exn Gen.C04Gen C04.Model C04.Proofs1 C04.ProofsTc C04.Proofs2 C04.Proofs3 C04.Proofs4.
 Import ListNotations.
 Open Scope N_scope.
 
@@ -38,6 +38,20 @@ Theorem C04_nbytes :
 Proof. exact nbytes_full. Qed.
 Print Assumptions C04_nbytes.
 
+(* nbytes as the code computes it (float64: `math.ceil(bitwidth/8 * size)`, model `nbytes_code` with the
+   int->float rounding `rne53`): exact for every element count below 2^53 — which `logical` requires and every
+   materialisable tensor satisfies — and NOT exact beyond (known finding nbytes-float-rounding: a declared shape
+   of 2^53+1 INT4 elements reports one byte too few; integer arithmetic would be exact for every shape). *)
+Theorem C04_nbytes_float_exact :
+  forall bw size, size < 2 ^ 53 -> nbytes_code bw size = ceil_div (size * bw) 8.
+Proof. exact nbytes_float_exact. Qed.
+Print Assumptions C04_nbytes_float_exact.
+
+Theorem C04_nbytes_float_refuted :
+  exists dt bw size, bitwidth dt = Some bw /\ nbytes_code bw size <> ceil_div (size * bw) 8.
+Proof. exact nbytes_float_refuted. Qed.
+Print Assumptions C04_nbytes_float_refuted.
+
 (* pack/unpack of _type_casting.py, any length (odd, non-multiple of 4, zero), any storage bytes. *)
 Theorem C04_pack_unpack :
   (forall xs, unpack_4bitx2 (pack_4bitx2 xs) (length xs) = map (fun x => x mod 2 ^ 4) xs) /\
@@ -53,6 +67,17 @@ Proof.
                 | exact pack4_correct | exact pack2_correct].
 Qed.
 Print Assumptions C04_pack_unpack.
+
+(* The pack/unpack functions used by the whole model are the statement-by-statement translation of
+   _type_casting.py (Gen/C04Gen.v over the strided numpy vocabulary of C04/Np.v, regenerated on every run); for
+   every input and every target size they compute the readable pair/quad recursions of Model.v.  So the theorem
+   above and everything below is about the code as written: masks, shifts, strides, the padding formula, the
+   `size == prod+1` / `size > total` truncations and the final resize. *)
+Theorem C04_type_casting_translated :
+  (forall a, tc_pack_4bitx2 a = pack_4bitx2_hand a) /\ (forall d n, tc_unpack_4bitx2 d n = unpack_4bitx2_hand d n) /\
+  (forall a, tc_pack_2bitx4 a = pack_2bitx4_hand a) /\ (forall d n, tc_unpack_2bitx4 d n = unpack_2bitx4_hand d n).
+Proof. repeat split; [exact tc_pack4_hand | exact tc_unpack4_hand | exact tc_pack2_hand | exact tc_unpack2_hand]. Qed.
+Print Assumptions C04_type_casting_translated.
 
 (* numpy() of every representation holds the logical elements (in the low `bw` bits of each cell). *)
 Theorem C04_numpy_agree :
@@ -110,6 +135,15 @@ Theorem C04_strings_agree_partial :
   s_numpy r = ss /\ s_string_data r = ss.
 Proof. exact string_reps_agree. Qed.
 Print Assumptions C04_strings_agree_partial.
+
+(* With the proposed repair (object arrays, model s_numpy_fixed) the full statement holds for ALL byte strings. *)
+Theorem C04_strings_agree_with_fix :
+  forall shape ss,
+  (forall r, In r [SList shape ss; SObjArray shape ss; SProto shape ss] ->
+     s_numpy_fixed r = ss /\ s_string_data r = ss)
+  /\ s_numpy_fixed (SBytesArray shape ss) = s_string_data (SBytesArray shape ss).
+Proof. exact strings_agree_fixed. Qed.
+Print Assumptions C04_strings_agree_with_fix.
 
 Theorem C04_string_trailing_nul_refuted :
   exists shape ss, s_numpy (SList shape ss) <> s_numpy (SObjArray shape ss)
